@@ -820,6 +820,16 @@ def stream_relto(rng, tier):
                 if d.startswith("s://h"):
                     yield "reltoref %s %s %s" % (f, hx((base + t)[2:]), hx(d[2:]))
                     yield "reltoref %s %s %s" % (f, hx((base + t)[5:]), hx(d[5:]))
+    # the same-document shortcut compares texts: a base whose last segment *decodes* to the rest of
+    # the target (escaped `/`, escaped letters, escaped dots) is another document
+    for d in ["s://h/docs/", "s://h/", "s:/a/", "s:a/"]:
+        for t in ["api/v1", "a/b", "x", "x/", "a/b/c", "./x", "a.b"]:
+            for enc in [t.replace("/", "%2F"), t.replace("/", "%2f"), t.replace("a", "%61"), t.replace(".", "%2E"), t]:
+                for suf in ["?p=2", "#f", "", "?p#f"]:
+                    for f in "ui":
+                        yield "relto %s %s %s" % (f, hx(d + t + suf), hx(d + enc))
+                        yield "relto %s %s %s" % (f, hx(d + enc + suf), hx(d + t))
+                        yield "relto %s %s %s" % (f, hx(d + t + suf), hx(d + enc + "?bq"))
     n = 2000 if tier == "quick" else 100000
     for _ in range(n):
         f = rng.choice("ui")
